@@ -179,8 +179,8 @@ def eval_meta(ctx, cfg, fs):
         e_par.discard('<self>'); m_par.discard('<self>')
         if ty.startswith('info::Info'):
             # help/version parsers are built on the fly by mk_*_parser
-            e_mk = {c.name.split('::')[-1] for c in ev.calls() if c.is_(r'Info::mk_\w+_parser$')}
-            m_mk = {c.name.split('::')[-1] for c in me.calls() if c.is_(r'Info::mk_\w+_parser$')}
+            e_mk = {k_ for k_, v_ in info_parser_sites(ev).items() if v_}
+            m_mk = {k_ for k_, v_ in info_parser_sites(me).items() if v_}
             ctx.ob('S.eval-meta', 'Info:parsers', e_mk == m_mk and len(e_mk) == 2, 'Info::eval looks up %s; Info::meta describes %s' % (sorted(e_mk), sorted(m_mk)), where=me.where(), cfg=cfg)
             continue
         ok = e_par == m_par
